@@ -854,6 +854,7 @@ pub fn duration_to_formattable(
 // TODO: Update, optimize, and fix the below. is_valid_duration should probably be generic over a T.
 
 const TWO_POWER_FIFTY_THREE: i128 = 9_007_199_254_740_992;
+const TWO_POWER_THIRTY_TWO: f64 = 4_294_967_296f64;
 
 // NOTE: Can FiniteF64 optimize the duration_validation
 /// Utility function to check whether the `Duration` fields are valid.
@@ -900,15 +901,15 @@ pub(crate) fn is_valid_duration(
         }
     }
     // 3. If abs(years) ≥ 2**32, return false.
-    if years.abs() >= f64::from(u32::MAX) {
+    if years.abs() >= TWO_POWER_THIRTY_TWO {
         return false;
     };
     // 4. If abs(months) ≥ 2**32, return false.
-    if months.abs() >= f64::from(u32::MAX) {
+    if months.abs() >= TWO_POWER_THIRTY_TWO {
         return false;
     };
     // 5. If abs(weeks) ≥ 2**32, return false.
-    if weeks.abs() >= f64::from(u32::MAX) {
+    if weeks.abs() >= TWO_POWER_THIRTY_TWO {
         return false;
     };
 
@@ -916,22 +917,30 @@ pub(crate) fn is_valid_duration(
     // + ℝ(𝔽(milliseconds)) × 10**-3 + ℝ(𝔽(microseconds)) × 10**-6 + ℝ(𝔽(nanoseconds)) × 10**-9.
     // 7. NOTE: The above step cannot be implemented directly using floating-point arithmetic.
     // Multiplying by 10**-3, 10**-6, and 10**-9 respectively may be imprecise when milliseconds,
-    // microseconds, or nanoseconds is an unsafe integer. This multiplication can be implemented
-    // in C++ with an implementation of core::remquo() with sufficient bits in the quotient.
-    // String manipulation will also give an exact result, since the multiplication is by a power of 10.
-    // Seconds part
-    let normalized_seconds = (days.0 as i128 * 86_400)
-        + (hours.0 as i128) * 3600
-        + minutes.0 as i128 * 60
-        + seconds.0 as i128;
-    // Subseconds part
-    let normalized_subseconds_parts = (milliseconds.0 as i128 / 1_000)
-        + (microseconds.0 as i128 / 1_000_000)
-        + (nanoseconds.0 as i128 / 1_000_000_000);
-
-    let normalized_seconds = normalized_seconds + normalized_subseconds_parts;
+    // microseconds, or nanoseconds is an unsafe integer.
+    //
+    // The sum is computed exactly, in nanoseconds, using `i128`.
+    const NS_PER_SECOND: i128 = 1_000_000_000;
+    let max_nanoseconds = TWO_POWER_FIFTY_THREE * NS_PER_SECOND;
+    let mut normalized_nanoseconds: i128 = 0;
+    for (value, ns_per_unit) in [
+        (days, 86_400 * NS_PER_SECOND),
+        (hours, 3600 * NS_PER_SECOND),
+        (minutes, 60 * NS_PER_SECOND),
+        (seconds, NS_PER_SECOND),
+        (milliseconds, 1_000_000),
+        (microseconds, 1_000),
+        (nanoseconds, 1),
+    ] {
+        // The fields share one sign, so a single field beyond the limit already
+        // makes the total exceed it. This also keeps the sum within `i128`.
+        if value.0.abs() > (max_nanoseconds / ns_per_unit) as f64 {
+            return false;
+        }
+        normalized_nanoseconds += value.0 as i128 * ns_per_unit;
+    }
     // 8. If abs(normalizedSeconds) ≥ 2**53, return false.
-    if normalized_seconds.abs() >= TWO_POWER_FIFTY_THREE {
+    if normalized_nanoseconds.abs() >= max_nanoseconds {
         return false;
     }
 
